@@ -321,24 +321,32 @@ func (app *App) optimizeReplicaWithSmallestLag(
 	ticker := time.NewTicker(3 * time.Second)
 	defer ticker.Stop()
 
-	app.startSyncerGoroutine(
+	syncerDone := app.startSyncerGoroutine(
 		ctx,
 		ticker,
 		clusterAdapter,
 	)
 
-	return app.optController.Wait(
+	err = app.optController.Wait(
 		ctx,
 		replicaToOptimize,
 	)
+
+	// no sync may be in flight (and relax the replica again) once turbo mode is over
+	cancel()
+	<-syncerDone
+
+	return err
 }
 
 func (app *App) startSyncerGoroutine(
 	ctx context.Context,
 	ticker *time.Ticker,
 	cluster optimization.Cluster,
-) {
+) <-chan struct{} {
+	done := make(chan struct{})
 	go func() {
+		defer close(done)
 		for {
 			select {
 			case <-ctx.Done():
@@ -351,6 +359,7 @@ func (app *App) startSyncerGoroutine(
 			}
 		}
 	}()
+	return done
 }
 
 func (app *App) chooseReplicaToOptimize(
